@@ -261,6 +261,40 @@ def ob_map(mod, stats, tmo, keybits, prefix, nsym, scenario):
                 rr, m = solver.check(list(s.pc) + [present, got != value])
                 if rr != 'unsat':
                     probs.append(('get: value differs from the most recently stored one (%s)' % rr, m))
+    if scenario in ('get', 'all'):
+        # has(q) and the optional-returning lookup the compiled code uses (value bytes followed by the flag byte)
+        def argq2(s):
+            rk = s.mem.alloc(kb, name='q', kind='heap')
+            s.mem.store(s, s.mem.ptr(rk), q, kb)
+            return [mp, s.mem.ptr(rk)]
+        out = call(ex, [s.clone() for s in sts], '@ferret_map_has', argq2)
+        npaths += len(out)
+        for s, r in out:
+            rr, m = solver.check(list(s.pc) + [(z3.Extract(0, 0, r) == bv(1, 1)) != present])
+            if rr != 'unsat':
+                probs.append(('has: differs from the abstract map (%s)' % rr, m))
+        for s0 in [s.clone() for s in sts]:
+            ro = s0.mem.alloc(9, name='opt', kind='heap')
+            for k in range(9):
+                s0.mem.store(s0, s0.mem.ptr(ro, k), bv(0xEE, 8), 1)
+            rk = s0.mem.alloc(kb, name='q', kind='heap')
+            s0.mem.store(s0, s0.mem.ptr(rk), q, kb)
+            out = call(ex, [s0], '@ferret_map_get_optional_out', lambda s_: [mp, s_.mem.ptr(rk), s_.mem.ptr(ro)])
+            npaths += len(out)
+            for s, r in out:
+                flag = s.mem.load(s, s.mem.ptr(ro, 8), 1)
+                got = s.mem.load(s, s.mem.ptr(ro), 8)
+                rr, m = solver.check(list(s.pc) + [z3.Or((flag == bv(1, 8)) != present, z3.And(flag != bv(0, 8), flag != bv(1, 8)), z3.And(present, got != value))])
+                if rr != 'unsat':
+                    probs.append(('get_optional_out: flag / payload differ from the abstract map (%s)' % rr, m))
+    if scenario == 'all':
+        # destroy releases every block exactly once (a double free or a free of a non-block ends the path as an error)
+        out = call(ex, [s.clone() for s in sts], '@ferret_map_destroy', lambda s: [mp])
+        npaths += len(out)
+        for s, r in out:
+            leaked = [rg for rg in s.mem.regions.values() if rg.kind == 'heap' and rg.alive and rg.name in ('malloc', 'calloc', 'realloc')]
+            if leaked:
+                probs.append(('destroy leaves %d heap block(s) of the map allocated' % len(leaked), None))
     if scenario in ('size', 'all'):
         out = call(ex, [s.clone() for s in sts], '@ferret_map_size', lambda s: [mp])
         npaths += len(out)
@@ -356,14 +390,20 @@ int main(void) {
   ferret_map_iter_t it; int n = 0; void *k, *v;
   if (ferret_map_iter_begin(m, &it)) { while (it.entry != NULL && n < 1000) { ferret_map_iter_next(m, &it, &k, &v); n++; } }
   printf("iter %%d\\n", n);
-  return 0; }''' % (mknew, sets, kt, kt, d['query'])
+  { %s q = (%s)%dULL; printf("has %%d\\n", (int)ferret_map_has(m, &q));
+    unsigned char opt[9]; for (int i = 0; i < 9; i++) opt[i] = 0xEE; ferret_map_get_optional_out(m, &q, opt);
+    long long pv = 0; for (int i = 7; i >= 0; i--) pv = (pv << 8) | opt[i];
+    if (opt[8] == 1) printf("opt 1 %%llu\\n", (unsigned long long)pv); else printf("opt %%d\\n", (int)opt[8]); }
+  ferret_map_destroy(m);
+  return 0; }''' % (mknew, sets, kt, kt, d['query'], kt, kt, d['query'])
     rc, so, se = cir.run_c_driver('map', body, ['core/map.c'])
     mask = (1 << keybits) - 1
     ref = {}
     for k, v in hist:
         ref[k & mask] = v
     qv = d['query'] & mask
-    want = ['get %d' % ref[qv] if qv in ref else 'get absent', 'size %d' % len(ref), 'iter %d' % len(ref)]
+    want = ['get %d' % ref[qv] if qv in ref else 'get absent', 'size %d' % len(ref), 'iter %d' % len(ref), 'has %d' % (1 if qv in ref else 0),
+            ('opt 1 %d' % (ref[qv] & ((1 << 64) - 1))) if qv in ref else 'opt 0']
     got = so.strip().split('\n')
     return {'native': got, 'expected': want, 'reproduced': rc != 0 or got != want, 'rc': rc, 'stderr': se[-300:]}
 
